@@ -226,10 +226,26 @@ def relayCode : List Addr → Bytes → Bytes
   | [], code => code
   | a :: r, code => encodeParam a (ascii "relay") (relayCode r code)
 
+/-- `seq` of the scripted contracts: two nested calls in one transaction, errors propagate. -/
+def seqHandler : Handler := fun args =>
+  match nextVarBytes args with
+  | none => .fail
+  | some (c1, rest) =>
+    match nextVarBytes rest with
+    | none => .fail
+    | some (c2, _) =>
+      match decodeParam c1, decodeParam c2 with
+      | some (a1, m1, ar1), some (a2, m2, ar2) =>
+        .call a1 m1 ar1 fun r1 => match r1 with
+          | .ok _ => .call a2 m2 ar2 fun r2 => match r2 with | .ok v => .ret v | _ => .fail
+          | _ => .fail
+      | _, _ => .fail
+
 def step (_ : Unit) (toks : List String) : Unit × String :=
   match toks with
   | ["height", _] => ((), "ok")
-  | _ :: contract :: method :: _ :: via :: _ :: _ :: "|" :: op :: ow :: sg :: du :: pr :: po :: [] =>
+  | ["world", _] => ((), "ok")
+  | kind :: contract :: method :: _ :: via :: _ :: _ :: _ :: "|" :: op :: ow :: sg :: du :: pr :: po :: [] =>
     let r : Option String := do
       let g ← generatedGuard contract method
       let via ← (field "via" via) >>= viaAddrs
@@ -249,14 +265,22 @@ def step (_ : Unit) (toks : List String) : Unit × String :=
       let target : Handler := fun _ => if pre = "ok" then guarded g required (due = "1") body else .fail
       let reg : Registry := fun a =>
         if a = addrT then some [(ascii "m", target)]
-        else if a = addrA ∨ a = addrB then some [(ascii "relay", relayHandler)]
+        else if a = addrA ∨ a = addrB then some [(ascii "relay", relayHandler), (ascii "seq", seqHandler)]
         else none
-      let tx : Tx := { signers := signers, code := relayCode via (encodeParam addrT (ascii "m") []), chainOk := true }
+      -- the transaction's payer field is not a witness: the model does not look at it
+      let direct := encodeParam addrT (ascii "m") []
+      let code :=
+        if kind = "seq" then
+          encodeParam addrA (ascii "seq") (varBytes direct ++ varBytes (relayCode [addrB] direct))
+        else relayCode via direct
+      let tx : Tx := { signers := signers, code := code, chainOk := true }
       let res := (execTx leafHash reg { base := [], height := 1, time := 1 } { overlay := [], cache := [] } tx).2
       if res.ok then pure "ok"
       else if res.log.contains "panic" then pure "panic"
       else if res.log.contains "reject:witness" then
-        pure ("reject:witness w=" ++ toString (res.effs.filter (fun e => match e with | .write _ _ => true | _ => false)).length)
+        -- in a `seq` the first call may legitimately have written before the second one is refused
+        if kind = "seq" then pure "reject:witness"
+        else pure ("reject:witness w=" ++ toString (res.effs.filter (fun e => match e with | .write _ _ => true | _ => false)).length)
       else pure "reject:other"
     ((), r.getD "bad-op")
   | _ => ((), "bad-op")
